@@ -13,7 +13,25 @@
       [own_value r] = what r.Value() hands back to New;
     - [json_roundtrip] / [yaml_roundtrip] : marshal then unmarshal a collection
       (results [ROk] / [RErr] / [RPanic]);
-    - [reg_le a b] : [reg_leb a b = true], the order of Registers.Sort (address, then ID). *)
+    - [reg_le a b] : [reg_leb a b = true], the order of Registers.Sort (address, then ID);
+    - [yval] = what the YAML decoder hands over for one mapping value: [YInt n] (a plain scalar
+      yaml.v3 resolved as an integer), [YStr s] (quoted scalar, or plain scalar that stays a
+      string), [YOther]; [yaml_scalar quoted text] is that resolution, [yaml_plain] its plain part;
+    - [yaml_entry id v] = valueUnpack + registers.New for one entry ([value_unpack_string]: the
+      case-sensitive prefix switch "0x" / "base64:"); [yaml_doc entries] = a whole document
+      (repeated key = error, result sorted);
+    - [b64_enc] / [b64_dec] : encoding/base64 StdEncoding (padded);
+    - [hex_upper c] = the letter a-f in upper case (any other character itself);
+      [respelled s s'] : s' is s with any of its letters a-f in upper case; [zeros k] = k zeros;
+      [pfx_hex] = "0x", [pfx_b64] = "base64:", [pfx_of u] = "0X" if u else "0x";
+    - [denotes r v] : the YAML value v is one of the accepted ways to write register r
+      (the integer; "0x" + any spelling of the hexadecimal digits, zero padded at will — the
+      key: of the hexadecimal text of its 32 bytes; "base64:" + base64 of ValueBytes);
+    - [doc] = [DJson entries] | [DYaml entries]; [parse_doc d] its parse ([None] = a plain
+      scalar outside the modelled class); [unmarshal dst d] = (destination afterwards,
+      succeeded?) of json/yaml.Unmarshal into a variable holding [dst];
+      [unmarshal_seq dst docs] = the same after each of several calls on ONE variable;
+      [json_marshal] / [yaml_marshal] = the entries MarshalJSON / MarshalYAML write. *)
 From Coq Require Import NArith List String Permutation Sorting.Sorted.
 From CSS Require Import Model.Marshal Proofs.Marshal.
 Import ListNotations.
@@ -136,6 +154,102 @@ Theorem C16_order_independent : forall a b,
 Proof. exact order_independent. Qed.
 Print Assumptions C16_order_independent.
 
+(** * 8. base64 (the obsolete "base64:" value form rests on it) *)
+
+Theorem C16_b64_roundtrip : forall b,
+  Forall (fun x => x < 256) b -> b64_dec (b64_enc b) = Some b.
+Proof. exact b64_roundtrip. Qed.
+Print Assumptions C16_b64_roundtrip.
+
+Theorem C16_b64_injective : forall a b,
+  Forall (fun x => x < 256) a -> Forall (fun x => x < 256) b -> b64_enc a = b64_enc b -> a = b.
+Proof. exact b64_enc_injective. Qed.
+Print Assumptions C16_b64_injective.
+
+(** * 9. hexadecimal digits in any case, with leading zeros *)
+
+Theorem C16_hex_any_spelling : forall bits x k s',
+  x < 2 ^ bits -> respelled (to_hex x) s' -> parse_hex bits (zeros k ++ s') = Some x.
+Proof. exact hex_any_spelling. Qed.
+Print Assumptions C16_hex_any_spelling.
+
+Theorem C16_hex_bytes_any_spelling : forall s s', respelled s s' -> hex_to_bytes s' = hex_to_bytes s.
+Proof. exact (fun s => proj1 (hex_to_bytes_respelled s)). Qed.
+Print Assumptions C16_hex_bytes_any_spelling.
+
+(** * 10. every accepted textual form of a value decodes to the value it denotes *)
+
+Theorem C16_entry_forms : forall r v, valid r -> denotes r v -> yaml_entry (fst r) v = ROk r.
+Proof. exact entry_forms. Qed.
+Print Assumptions C16_entry_forms.
+
+(** what yaml.v3 makes of a plain hexadecimal scalar, "0x" or "0X", any spelling: the number
+    below 2^64, the text itself from there on (both are covered by [denotes] for an integer
+    register; for the key the first case is known finding C16-yaml-small-public-key) *)
+Theorem C16_plain_hex_scalar : forall u x k s', respelled (to_hex x) s' ->
+  yaml_plain (pfx_of u ++ zeros k ++ s') =
+  Some (if x <? 2 ^ 64 then YInt x else YStr (pfx_of u ++ zeros k ++ s')).
+Proof. exact plain_hex_scalar. Qed.
+Print Assumptions C16_plain_hex_scalar.
+
+Theorem C16_plain_hex_bytes_scalar : forall u b s',
+  Forall (fun x => x < 256) b -> b <> [] -> respelled (bytes_to_hex b) s' ->
+  yaml_plain (pfx_of u ++ s') =
+  Some (if be_value b <? 2 ^ 64 then YInt (be_value b) else YStr (pfx_of u ++ s')).
+Proof. exact plain_hex_bytes_scalar. Qed.
+Print Assumptions C16_plain_hex_bytes_scalar.
+
+(** a document whose entries denote, in any of the forms, the registers of a collection
+    parses to that collection (sorted) *)
+Theorem C16_yaml_doc_forms : forall regs es,
+  Forall valid regs -> NoDup (ids regs) ->
+  Forall2 (fun r e => fst e = fst r /\ denotes r (snd e)) regs es ->
+  yaml_doc es = ROk (sort_regs regs).
+Proof. exact yaml_doc_forms. Qed.
+Print Assumptions C16_yaml_doc_forms.
+
+(** * 11. unmarshalling replaces the destination *)
+
+Theorem C16_unmarshal_replaces : forall dst d l,
+  parse_doc d = Some (ROk l) -> unmarshal dst d = Some (l, true).
+Proof. exact unmarshal_replaces. Qed.
+Print Assumptions C16_unmarshal_replaces.
+
+Theorem C16_unmarshal_error_keeps : forall dst d,
+  parse_doc d = Some RErr -> unmarshal dst d = Some (dst, false).
+Proof. exact unmarshal_error_keeps. Qed.
+Print Assumptions C16_unmarshal_error_keeps.
+
+(** after any earlier calls on the same variable, successful or not, a successful call leaves
+    exactly the collection of its own document *)
+Theorem C16_unmarshal_seq_last : forall docs dst d l,
+  (forall d', In d' docs -> parse_doc d' <> None) -> parse_doc d = Some (ROk l) ->
+  exists pre, unmarshal_seq dst (docs ++ [d]) = Some (pre ++ [(l, true)]) /\
+              List.length pre = List.length docs.
+Proof. exact unmarshal_seq_last. Qed.
+Print Assumptions C16_unmarshal_seq_last.
+
+(** legacy JSON: Marshal, then Unmarshal into a variable holding anything *)
+Theorem C16_unmarshal_json_marshalled : forall dst regs, Forall valid regs ->
+  exists e, json_marshal regs = ROk e /\ unmarshal dst (DJson e) = Some (regs, true).
+Proof. exact unmarshal_json_marshalled. Qed.
+Print Assumptions C16_unmarshal_json_marshalled.
+
+(** YAML: the entries MarshalYAML writes, read back through the scalar resolution of
+    yaml.v3, behave exactly as [yaml_roundtrip] of sections 6 and 7 says *)
+Theorem C16_yaml_marshal_parse : forall regs, Forall valid regs -> NoDup (ids regs) ->
+  exists e, yaml_marshal regs = ROk e /\ parse_doc (DYaml e) = Some (yaml_roundtrip regs).
+Proof. exact yaml_marshal_parse. Qed.
+Print Assumptions C16_yaml_marshal_parse.
+
+(** [_partial]: the key hypothesis of C16_yaml_roundtrip_partial (same known finding) *)
+Theorem C16_unmarshal_yaml_marshalled_partial : forall dst regs,
+  Forall valid regs -> NoDup (ids regs) ->
+  (forall r, In r regs -> fst r = key_id -> 2 ^ 64 <= be_value (le_bytes 32 (snd r))) ->
+  exists e, yaml_marshal regs = ROk e /\ unmarshal dst (DYaml e) = Some (sort_regs regs, true).
+Proof. exact unmarshal_yaml_marshalled_partial. Qed.
+Print Assumptions C16_unmarshal_yaml_marshalled_partial.
+
 (** * Examples: the hypotheses above are satisfiable by non-trivial values *)
 
 Open Scope string_scope.
@@ -163,3 +277,26 @@ Proof. exact ex_dup. Qed.
 Example C16_ex_small_key :
   valid (key_id, 2 ^ 255)%N /\ yaml_roundtrip [(key_id, 2 ^ 255)%N] = RErr.
 Proof. exact ex_small_key. Qed.
+(** value forms: base64 is case sensitive (lower-casing the text denotes another value),
+    hexadecimal digits are not; "0X" inside a quoted scalar is refused, not misread *)
+Example C16_ex_forms :
+  b64_enc [0x10; 0x70; 0x85; 0x4f; 0; 0; 0; 0]%N = "EHCFTwAAAAA=" /\
+  yaml_entry "ACM_STATUS" (YStr "base64:EHCFTwAAAAA=") = ROk ("ACM_STATUS", 0x4f857010%N) /\
+  yaml_entry "ACM_STATUS" (YStr "base64:ehcftwaaaaa=") = ROk ("ACM_STATUS", 0xb71f177a%N) /\
+  respelled "4f857010" "4F857010" /\
+  yaml_scalar false "0x4F857010" = Some (YInt 0x4f857010%N) /\
+  yaml_entry "ACM_STATUS" (YStr "0x004F857010") = ROk ("ACM_STATUS", 0x4f857010%N) /\
+  yaml_entry "ACM_STATUS" (YStr "0X4f857010") = RErr /\
+  yaml_entry "TXT.ESTS" (YStr "base64:/w==") = ROk ("TXT.ESTS", 0xff%N).
+Proof. exact ex_forms. Qed.
+(** one variable, three calls: JSON, a failing YAML document (variable untouched), YAML in two
+    value forms (nothing of the earlier contents is left) *)
+Example C16_ex_seq :
+  unmarshal_seq [("TXT.ESTS", 7%N)]
+    [DJson [("TXT.STS", [1; 2; 3; 4; 5; 6; 7; 8]%N)];
+     DYaml [("BOGUS", (false, "0x1"))];
+     DYaml [("TXT.ESTS", (true, "base64:/w==")); ("ACM_STATUS", (false, "0x12"))]]
+  = Some [([("TXT.STS", 0x0807060504030201%N)], true);
+          ([("TXT.STS", 0x0807060504030201%N)], false);
+          ([("TXT.ESTS", 0xff%N); ("ACM_STATUS", 0x12%N)], true)].
+Proof. exact ex_seq. Qed.
